@@ -59,10 +59,17 @@ func navigate(root reflect.Value, path []pstep) (reflect.Value, bool) {
 			if !e.IsValid() {
 				return v, false
 			}
-			// map values are not addressable: copy out
-			c := reflect.New(e.Type()).Elem()
-			c.Set(e)
-			v = c
+			// map values are not addressable: a pointer is followed as it is, anything else is copied out (not possible for a map
+			// reached through an unexported field: such plain values are not swept)
+			if e.Kind() == reflect.Ptr {
+				v = e
+			} else if e.CanInterface() {
+				c := reflect.New(e.Type()).Elem()
+				c.Set(e)
+				v = c
+			} else {
+				return v, false
+			}
 		case 3:
 			if v.IsNil() {
 				return v, false
@@ -311,8 +318,132 @@ func valuesBaseline() *meta2.Data {
 	return R.fsm.Data()
 }
 
+// populate fills what the commands of the baseline leave empty (nil pointers to structs, empty slices and maps below
+// meta.Data) with one element of plain values, so that the leaves below are swept too. Only containers of the meta package's
+// own struct types or of scalars are filled; identity-keyed maps of the catalogue are never empty in the baseline.
+var fillable = map[string]bool{"DatabaseInfo.Options": true, "DbPtInfo.Shards": true, "IndexGroupInfo.ClearInfo": true, "IndexOption.TokensTable": true,
+	"MeasurementInfo.ObsOptions": true, "MeasurementInfo.ShardIdexes": true}
+
+func populate(v reflect.Value, depth int, filled *[]string, owner, fname string) {
+	if depth > 12 {
+		return
+	}
+	if k := v.Kind(); (k == reflect.Ptr && v.IsNil() || (k == reflect.Slice || k == reflect.Map) && v.Len() == 0) && !fillable[owner+"."+fname] {
+		return // only the containers no command of the baseline can fill
+	}
+	t := v.Type()
+	if t == timeType {
+		return
+	}
+	switch t.Kind() {
+	case reflect.Struct:
+		for i := 0; i < t.NumField(); i++ {
+			f := t.Field(i)
+			k := t.Name() + "." + f.Name
+			if skip[k] || f.Type.Kind() == reflect.Func || f.Type.Kind() == reflect.Chan || f.Type.Kind() == reflect.Interface || strings.HasPrefix(f.Type.String(), "sync.") {
+				continue
+			}
+			populate(settable(v.Field(i)), depth+1, filled, t.Name(), f.Name)
+		}
+	case reflect.Ptr:
+		if v.IsNil() {
+			if t.Elem().Kind() != reflect.Struct {
+				return
+			}
+			v.Set(reflect.New(t.Elem()))
+			*filled = append(*filled, owner+"."+fname)
+			fillLeaves(v.Elem(), 0)
+			return
+		}
+		populate(v.Elem(), depth+1, filled, owner, fname)
+	case reflect.Slice:
+		if v.Len() == 0 {
+			e := reflect.New(t.Elem()).Elem()
+			fillLeaves(e, 0)
+			v.Set(reflect.Append(reflect.MakeSlice(t, 0, 1), e))
+			*filled = append(*filled, owner+"."+fname)
+			return
+		}
+		for i := 0; i < v.Len(); i++ {
+			populate(v.Index(i), depth+1, filled, owner, fname)
+		}
+	case reflect.Map:
+		if v.Len() == 0 {
+			kk := reflect.New(t.Key()).Elem()
+			fillLeaves(kk, 0)
+			e := reflect.New(t.Elem()).Elem()
+			fillLeaves(e, 0)
+			m := reflect.MakeMap(t)
+			m.SetMapIndex(kk, e)
+			v.Set(m)
+			*filled = append(*filled, owner+"."+fname)
+			return
+		}
+		for _, k := range v.MapKeys() {
+			e := v.MapIndex(k)
+			if e.Kind() == reflect.Ptr && !e.IsNil() {
+				populate(e.Elem(), depth+1, filled, owner, fname)
+			}
+		}
+	}
+}
+
+// fillLeaves gives a freshly allocated value plain non-zero contents (1, "v", true, one element per container)
+func fillLeaves(v reflect.Value, depth int) {
+	if depth > 6 {
+		return
+	}
+	v = settable(v)
+	t := v.Type()
+	if t == timeType {
+		v.Set(reflect.ValueOf(time.Unix(1700000000, 5)))
+		return
+	}
+	switch t.Kind() {
+	case reflect.Bool:
+		v.SetBool(true)
+	case reflect.Int, reflect.Int8, reflect.Int16, reflect.Int32, reflect.Int64:
+		v.SetInt(1)
+	case reflect.Uint, reflect.Uint8, reflect.Uint16, reflect.Uint32, reflect.Uint64:
+		v.SetUint(1)
+	case reflect.Float32, reflect.Float64:
+		v.SetFloat(1.5)
+	case reflect.String:
+		v.SetString("v")
+	case reflect.Struct:
+		for i := 0; i < t.NumField(); i++ {
+			f := t.Field(i)
+			if f.Type.Kind() == reflect.Func || f.Type.Kind() == reflect.Chan || f.Type.Kind() == reflect.Interface || strings.HasPrefix(f.Type.String(), "sync.") {
+				continue
+			}
+			fillLeaves(v.Field(i), depth+1)
+		}
+	case reflect.Ptr:
+		if t.Elem().Kind() == reflect.Struct {
+			v.Set(reflect.New(t.Elem()))
+			fillLeaves(v.Elem(), depth+1)
+		}
+	case reflect.Slice:
+		e := reflect.New(t.Elem()).Elem()
+		fillLeaves(e, depth+1)
+		v.Set(reflect.Append(reflect.MakeSlice(t, 0, 1), e))
+	case reflect.Map:
+		kk := reflect.New(t.Key()).Elem()
+		fillLeaves(kk, depth+1)
+		e := reflect.New(t.Elem()).Elem()
+		fillLeaves(e, depth+1)
+		m := reflect.MakeMap(t)
+		m.SetMapIndex(kk, e)
+		v.Set(m)
+	}
+}
+
 func valuesMode() map[string]any {
-	vr := &valuesRun{base: valuesBaseline(), reached: map[string]bool{}, all: map[string]bool{}, empty: map[string]bool{}, budget: map[string]int{}}
+	base0 := valuesBaseline()
+	var filled []string
+	populate(reflect.ValueOf(base0).Elem(), 0, &filled, "", "")
+	sort.Strings(filled)
+	vr := &valuesRun{base: base0, reached: map[string]bool{}, all: map[string]bool{}, empty: map[string]bool{}, budget: map[string]int{}}
 	_, base := snapshotPath(vr.base)
 	vr.walk(nil, reflect.ValueOf(vr.base).Elem(), "", "")
 	var unreached []string
@@ -323,5 +454,5 @@ func valuesMode() map[string]any {
 		}
 	}
 	sort.Strings(unreached)
-	return map[string]any{"values": vr.out, "baseline": base, "fields_seen": len(vr.all), "leaf_contexts_swept": len(vr.budget), "empty_in_baseline": unreached}
+	return map[string]any{"values": vr.out, "baseline": base, "fields_seen": len(vr.all), "leaf_contexts_swept": len(vr.budget), "empty_in_baseline": unreached, "filled_by_reflection": filled}
 }
